@@ -482,6 +482,14 @@ fn main() {
         code.push_str(&format!("    (\"{p}\", \"{u}\"),\n"));
     }
     code.push_str("];\n");
+    // which message types implement TypeUrl at all — whether the impl is written out in type_urls.rs or
+    // produced by a macro there. An inherent method on Probe<T: TypeUrl> shadows the blanket trait method.
+    code.push_str("pub struct Probe<T>(pub core::marker::PhantomData<T>);\npub trait NoUrl { fn url(&self) -> Option<&'static str> { None } }\nimpl<T> NoUrl for Probe<T> {}\nimpl<T: initia_proto::traits::TypeUrl> Probe<T> { pub fn url(&self) -> Option<&'static str> { Some(T::TYPE_URL) } }\n");
+    code.push_str("#[allow(unused_imports)]\npub fn registered_urls() -> Vec<(&'static str, Option<&'static str>)> {\n    let mut v: Vec<(&'static str, Option<&'static str>)> = Vec::new();\n");
+    for m in &inc {
+        code.push_str(&format!("    v.push((\"{}\", Probe::<initia_proto::{}>(core::marker::PhantomData).url()));\n", m.path, rust_path(&m.path)));
+    }
+    code.push_str("    v\n}\n");
     code.push_str("pub fn any_check(i: usize, sample: &[u8], all_urls: &[&str]) -> Result<String, String> {\n    match i {\n");
     for (i, (p, _)) in schema.type_urls.iter().enumerate() {
         code.push_str(&format!("        {i} => crate::any_rt::<initia_proto::{}>(sample, all_urls),\n", rust_path(p)));
